@@ -573,11 +573,428 @@ fn fmt_index(name: &str) -> Option<usize> {
     FORMATS.iter().position(|f| f.name == name)
 }
 
-include!("drv_parse/seeds.rs");
-include!("drv_parse/layout.rs");
-include!("drv_parse/mutate.rs");
-include!("drv_parse/bprog.rs");
-include!("drv_parse/parent.rs");
+// ------------------------------------------------------------------------------------------------
+// seeds: real CDN fixtures of /repo + small outputs of the crate's own builders
+// ------------------------------------------------------------------------------------------------
+#[derive(Clone)]
+struct Seed {
+    name: String,
+    bytes: Vec<u8>,
+    /// a real CDN file (C08: must round-trip byte-exactly)
+    real: bool,
+}
+fn fixtures_dir() -> PathBuf {
+    repo_root().join("crates/cascette-formats/test_fixtures")
+}
+fn fixture_files(sub: &str, pred: &dyn Fn(&str) -> bool) -> Vec<Seed> {
+    let dir = fixtures_dir().join(sub);
+    let mut names: Vec<String> = std::fs::read_dir(&dir)
+        .map(|rd| rd.filter_map(|e| e.ok()).map(|e| e.file_name().to_string_lossy().to_string()).collect())
+        .unwrap_or_default();
+    names.sort();
+    names
+        .into_iter()
+        .filter(|n| pred(n) && n != "manifest.json" && n != ".gitkeep")
+        .filter_map(|n| std::fs::read(dir.join(&n)).ok().map(|b| Seed { name: format!("{sub}/{n}"), bytes: b, real: true }))
+        .collect()
+}
+fn zbs_olds() -> Vec<Vec<u8>> {
+    let mut v: Vec<Vec<u8>> = fixture_files("zbsdiff", &|n| n.ends_with(".old")).into_iter().map(|s| s.bytes).collect();
+    v.sort_by_key(|b| b.len());
+    v.insert(0, b"the quick brown fox jumps over the lazy dog".to_vec());
+    v
+}
+fn k16(tag: u8, i: u64) -> [u8; 16] {
+    let mut k = [tag; 16];
+    k[..8].copy_from_slice(&(i.wrapping_mul(0x9E37_79B9_7F4A_7C15) | 1).to_be_bytes());
+    k[15] = i as u8;
+    k
+}
+fn k9(tag: u8, i: u64) -> [u8; 9] {
+    let k = k16(tag, i);
+    let mut o = [0u8; 9];
+    o.copy_from_slice(&k[..9]);
+    o
+}
+fn bseed(name: &str, r: Result<Vec<u8>, String>) -> Option<Seed> {
+    match r {
+        Ok(b) => Some(Seed { name: format!("builder/{name}"), bytes: b, real: false }),
+        Err(e) => {
+            eprintln!("driver: builder seed {name} unavailable: {e}");
+            None
+        }
+    }
+}
+fn es<E: std::fmt::Display>(e: E) -> String {
+    e.to_string()
+}
+
+fn build_blte_seed(multi: bool) -> Result<Vec<u8>, String> {
+    use cascette_formats::blte::CompressionMode;
+    let data: Vec<u8> = (0..300u32).map(|i| (i % 7) as u8 + b'a').collect();
+    let f = if multi { BlteFile::compress(&data, 100, CompressionMode::ZLib).map_err(es)? } else { BlteFile::single_chunk(data, CompressionMode::None).map_err(es)? };
+    <BlteFile as CascFormat>::build(&f).map_err(es)
+}
+fn build_encoding_file(n: u64) -> Result<EncodingFile, String> {
+    use cascette_crypto::{ContentKey, EncodingKey};
+    use cascette_formats::encoding::{CKeyEntryData, EKeyEntryData, EncodingBuilder};
+    let mut b = EncodingBuilder::new().with_page_sizes(1, 1);
+    for i in 0..n {
+        b.add_ckey_entry(CKeyEntryData { content_key: ContentKey::from_bytes(k16(0xC0, i)), file_size: 100 + i, encoding_keys: vec![EncodingKey::from_bytes(k16(0xE0, i))] });
+        b.add_ekey_entry(EKeyEntryData { encoding_key: EncodingKey::from_bytes(k16(0xE0, i)), espec: if i % 2 == 0 { "z".into() } else { "n".into() }, file_size: 90 + i });
+    }
+    b.build().map_err(es)
+}
+fn build_aidx_seed(n: u64, ow: u8) -> Result<Vec<u8>, String> {
+    use cascette_formats::archive::{ArchiveGroupBuilder, ArchiveGroupEntry, ArchiveIndexBuilder};
+    let mut out = Vec::new();
+    if ow == 6 {
+        let mut b = ArchiveGroupBuilder::new();
+        for i in 0..n {
+            b.add_entry(ArchiveGroupEntry::new(k16(0xA0, i).to_vec(), (i % 3) as u16, (i * 64) as u32, 32 + i as u32));
+        }
+        b.build(std::io::Cursor::new(&mut out)).map_err(es)?;
+    } else {
+        let mut b = ArchiveIndexBuilder::with_config(16, ow, 4);
+        for i in 0..n {
+            b.add_entry(k16(0xA0, i).to_vec(), 32 + i as u32, i * 64);
+        }
+        b.build(std::io::Cursor::new(&mut out)).map_err(es)?;
+    }
+    Ok(out)
+}
+fn build_root_seed(ver: u32, n: u64) -> Result<Vec<u8>, String> {
+    use cascette_crypto::md5::{ContentKey, FileDataId};
+    use cascette_formats::root::{ContentFlags, LocaleFlags, RootBuilder, RootVersion};
+    let v = match ver {
+        1 => RootVersion::V1,
+        2 => RootVersion::V2,
+        3 => RootVersion::V3,
+        _ => RootVersion::V4,
+    };
+    let mut b = RootBuilder::new(v);
+    for i in 0..n {
+        let locale = if i % 2 == 1 { LocaleFlags::DEDE } else { LocaleFlags::ENUS };
+        let path = format!("interface/file_{i}.blp");
+        b.add_file(FileDataId::new(100 + 3 * i as u32), ContentKey::from_bytes(k16(0xC1, i)), Some(path.as_str()), LocaleFlags::new(locale), ContentFlags::new(ContentFlags::INSTALL));
+    }
+    b.build().map_err(es)
+}
+fn build_install_seed() -> Result<Vec<u8>, String> {
+    use cascette_crypto::ContentKey;
+    use cascette_formats::install::{InstallManifestBuilder, TagType};
+    let mut b = InstallManifestBuilder::new().add_tag("Windows".into(), TagType::Platform).add_tag("enUS".into(), TagType::Locale);
+    for i in 0..5u64 {
+        b = b.add_file(format!("dir/file{i}.dat"), ContentKey::from_bytes(k16(0xC2, i)), 1000 + i as u32);
+        b = b.associate_file_with_tag(i as usize, if i % 2 == 0 { "Windows" } else { "enUS" }).map_err(es)?;
+    }
+    b.build().map_err(es)?.build().map_err(es)
+}
+fn build_download_seed(ver: u8) -> Result<Vec<u8>, String> {
+    use cascette_crypto::EncodingKey;
+    use cascette_formats::download::DownloadManifestBuilder;
+    use cascette_formats::install::TagType;
+    let mut b = DownloadManifestBuilder::new(ver).map_err(es)?;
+    if ver >= 2 {
+        b = b.with_flags(1).map_err(es)?;
+    }
+    if ver >= 3 {
+        b = b.with_base_priority(-1).map_err(es)?;
+    }
+    b = b.with_checksums(ver != 2);
+    b = b.add_tag("Windows".into(), TagType::Platform).add_tag("enUS".into(), TagType::Locale);
+    for i in 0..5u64 {
+        b = b.add_file(EncodingKey::from_bytes(k16(0xE2, i)), 5000 + i, (i % 3) as i8).map_err(es)?;
+        b = b.associate_file_with_tag(i as usize, if i % 2 == 0 { "Windows" } else { "enUS" }).map_err(es)?;
+    }
+    b.build().map_err(es)?.build().map_err(es)
+}
+fn build_size_seed(ver: u8) -> Result<Vec<u8>, String> {
+    use cascette_formats::install::TagType;
+    use cascette_formats::size::SizeManifestBuilder;
+    let mut b = SizeManifestBuilder::new().version(ver).ekey_size(9).add_tag("Windows".into(), TagType::Platform);
+    if ver == 1 {
+        b = b.esize_bytes(4);
+    }
+    for i in 0..5u64 {
+        b = b.add_entry(k9(0xE3, i).to_vec(), 700 + i);
+    }
+    b = b.tag_file(0, 1).tag_file(0, 3);
+    b.build().map_err(es)?.build().map_err(es)
+}
+fn build_tvfs_seed(est: bool) -> Result<Vec<u8>, String> {
+    use cascette_formats::tvfs::TvfsBuilder;
+    let mut b = if est { TvfsBuilder::with_flags(0x7) } else { TvfsBuilder::new() };
+    if est {
+        b.add_est_spec("z".into());
+        b.add_est_spec("b:{256K*=z}".into());
+    }
+    for i in 0..6u64 {
+        let path = format!("data/sub{}/file{i}.bin", i % 2);
+        if est {
+            b.add_file_with_est(path, k9(0xE4, i), 100 + i as u32, 200 + i as u32, Some(k16(0xC4, i)), (i % 2) as u32);
+        } else {
+            b.add_file(path, k9(0xE4, i), 100 + i as u32, 200 + i as u32, Some(k16(0xC4, i)));
+        }
+    }
+    b.build().map_err(es)
+}
+fn build_pa_seed(ext: bool) -> Result<Vec<u8>, String> {
+    use cascette_formats::patch_archive::{PatchArchiveBuilder, PatchArchiveEncodingInfo};
+    let mut b = PatchArchiveBuilder::new();
+    if ext {
+        b = b.encoding_info(PatchArchiveEncodingInfo { encoding_ckey: k16(0xC5, 90), encoding_ekey: k16(0xE5, 91), decoded_size: 1234, encoded_size: 999, espec: "b:{22=n,*=z}".into() });
+    }
+    for i in 0..4u64 {
+        b.add_file_entry(k16(0xC5, i), 4000 + i, vec![(k16(0xE5, i), 3000 + i, k16(0xF5, i), 77 + i as u32, 1)]);
+    }
+    b.sort_entries();
+    b.build().map_err(es)
+}
+fn build_pi_seed() -> Result<Vec<u8>, String> {
+    use cascette_formats::patch_index::{PatchIndexBuilder, PatchIndexEntry};
+    let mut b = PatchIndexBuilder::new().key_size(16);
+    for i in 0..4u64 {
+        b.add_entry(PatchIndexEntry { source_ekey: k16(0xE6, i), source_size: 100 + i as u32, target_ekey: k16(0xE7, i), target_size: 200 + i as u32, encoded_size: 50 + i as u32, suffix_offset: 1, patch_ekey: k16(0xF6, i) });
+    }
+    b.build().map_err(es)
+}
+fn build_zbs_seed() -> Result<Vec<u8>, String> {
+    let old = b"the quick brown fox jumps over the lazy dog".to_vec();
+    let new = b"the quick red fox jumped over the lazy dogs!".to_vec();
+    cascette_formats::zbsdiff::ZbsdiffBuilder::new(old, new).build().map_err(es)
+}
+fn build_local_idx_seed(tmp: &Path, flush: bool) -> Result<Vec<u8>, String> {
+    use cascette_client_storage::index::IndexManager;
+    use cascette_crypto::EncodingKey;
+    let dir = tmp.join(if flush { "seed_idx_f" } else { "seed_idx_u" });
+    let _ = std::fs::remove_dir_all(&dir);
+    std::fs::create_dir_all(&dir).map_err(es)?;
+    let mut m = IndexManager::new(&dir);
+    let mut bucket = None;
+    let mut n = 0;
+    for i in 0..400u64 {
+        let k = EncodingKey::from_bytes(k16(0xE8, i));
+        let b = IndexManager::bucket_for_key(&k);
+        if bucket.is_none() {
+            bucket = Some(b);
+        }
+        if Some(b) == bucket && n < 6 {
+            m.add_entry(&k, 1, (n * 4096) as u32, 300 + n as u32).map_err(es)?;
+            n += 1;
+            if flush && n == 4 {
+                m.flush_all_updates().map_err(es)?;
+            }
+        }
+    }
+    m.save_all().map_err(es)?;
+    let mut files: Vec<PathBuf> = std::fs::read_dir(&dir).map_err(es)?.filter_map(|e| e.ok()).map(|e| e.path()).filter(|p| p.extension().is_some_and(|x| x == "idx")).collect();
+    files.sort();
+    let f = files.first().ok_or("no idx file written")?;
+    std::fs::read(f).map_err(es)
+}
+fn build_update_section_seed() -> Result<Vec<u8>, String> {
+    use cascette_client_storage::index::update::{UpdateEntry, UpdateSection, UpdateStatus};
+    use cascette_client_storage::index::ArchiveLocation;
+    let mut s = UpdateSection::new();
+    for i in 0..30u64 {
+        let _ = s.append(UpdateEntry::new(k9(0xE9, i), ArchiveLocation { archive_id: 1, archive_offset: (i * 512) as u32 }, 100 + i as u32, UpdateStatus::Normal));
+    }
+    Ok(s.to_bytes())
+}
+fn build_residency_seed(tmp: &Path) -> Result<Vec<u8>, String> {
+    use cascette_client_storage::kmt::key_state::ResidencyDb;
+    let p = tmp.join("seed_residency.db");
+    let _ = std::fs::remove_file(&p);
+    let mut db = ResidencyDb::new(p.clone());
+    for i in 0..40u64 {
+        db.mark_resident(&k16(0xEA, i));
+    }
+    db.mark_non_resident(&k16(0xEA, 3));
+    db.save().map_err(es)?;
+    std::fs::read(&p).map_err(es)
+}
+fn build_lru_seed(n: u32) -> Vec<u8> {
+    use cascette_client_storage::lru::lru_file::{LRU_SENTINEL, LruFileEntry, LruFileHeader, serialize};
+    // list tail -> head: 0 -> 1 -> ... -> n-1 (next points towards the MRU end), two free slots at the end
+    let mut entries = Vec::new();
+    for i in 0..n {
+        entries.push(LruFileEntry { prev: if i == 0 { LRU_SENTINEL } else { i - 1 }, next: if i + 1 == n { LRU_SENTINEL } else { i + 1 }, ekey: k9(0xEB, u64::from(i)), flags: 0 });
+    }
+    for _ in 0..2 {
+        entries.push(LruFileEntry { prev: LRU_SENTINEL, next: LRU_SENTINEL, ekey: [0; 9], flags: 0 });
+    }
+    let header = LruFileHeader { version: 1, hash: [0; 16], mru_head: if n == 0 { LRU_SENTINEL } else { n - 1 }, lru_tail: if n == 0 { LRU_SENTINEL } else { 0 } };
+    serialize(&header, &entries)
+}
+fn build_shmem_seed(v5: bool) -> Vec<u8> {
+    use cascette_client_storage::shmem::control_block::{ShmemControlBlock, v4_file_size, v5_file_size};
+    if v5 {
+        let mut cb = ShmemControlBlock::new_v5_with_pid_tracking(4);
+        cb.initialize(0x1000);
+        if let Some(p) = cb.pid_tracking_mut() {
+            let _ = p.add_process(1234, 1);
+        }
+        let mut buf = vec![0u8; v5_file_size(true).max(0x258 + 0x1C + 64)];
+        cb.to_mapped(&mut buf);
+        buf
+    } else {
+        let mut buf = vec![0u8; v4_file_size()];
+        if let Some(mut cb) = ShmemControlBlock::new(4) {
+            cb.initialize(0x1000);
+            cb.to_mapped(&mut buf);
+        }
+        buf
+    }
+}
+const BPSV_SEED: &str = "Region!STRING:0|BuildConfig!HEX:16|CDNConfig!HEX:16|BuildId!DEC:4|VersionsName!String:0\n## seqn = 2241282\nus|be2bb98dc28aee05bbee519393696cdb|fac77b9ca52c84ac28ad83a7dbe1c829|61491|11.1.5.61491\neu|be2bb98dc28aee05bbee519393696cdb|fac77b9ca52c84ac28ad83a7dbe1c829|61491|11.1.5.61491\ncn|||0|\n";
+const BUILD_INFO_SEED: &str = "Branch!STRING:0|Active!DEC:1|Build Key!HEX:16|CDN Key!HEX:16|Install Key!HEX:16|IM Size!DEC:4|CDN Path!STRING:0|CDN Hosts!STRING:0|CDN Servers!STRING:0|Tags!STRING:0|Armadillo!STRING:0|Last Activated!STRING:0|Version!STRING:0|Product!STRING:0\nus|1|be2bb98dc28aee05bbee519393696cdb|fac77b9ca52c84ac28ad83a7dbe1c829|0123456789abcdef0123456789abcdef|4096|tpr/wow|level3.blizzard.com us.cdn.blizzard.com|http://level3.blizzard.com/?maxhosts=4 https://us.cdn.blizzard.com/?maxhosts=4|Windows x86_64 US? enUS speech?:Windows x86_64 US? enUS text?||2025-01-01T00:00:00Z|11.1.5.61491|wow\neu|0|be2bb98dc28aee05bbee519393696cdb|fac77b9ca52c84ac28ad83a7dbe1c829||0|tpr/wow|eu.cdn.blizzard.com||||||wow\n";
+const CDN_CONFIG_SEED: &str = "# CDN Configuration\n\narchives = 0017a402f556fbece46c38dc431a2c9b 00b79cc0eebdd26437c7e92e57ac7f5c 00872b40344ef1a3dac4aff09588603c\narchives-index-size = 173068 53588 41228\narchive-group = 58a3c9e02c964b0ec9dd6c085df99a77\npatch-archives = 071290388e1f3b898157c372f03bc435\npatch-archives-index-size = 2709\npatch-archive-group = aaad2399821319140599c508abd54c9c\nfile-index = e3fffe04f64007852408b86e44d91e5a\nfile-index-size = 9901\npatch-file-index = 35dc55e39ec07e21e9f9dd83c41ec208\npatch-file-index-size = 182\n";
+const PATCH_CONFIG_SEED: &str = "# Patch Configuration\n\npatch = aaad2399821319140599c508abd54c9c\npatch-size = 16725\npatch-entry = install 4e173599a18ca79e8fac4aa63c66304c 24197 bc4e960bed45b649d32a269ff33f2b73 23331 b:{22=n,*=z}\npatch-entry = encoding e058fa32dfe994c5e143bd0fcd0994dd 147000 25c87b6ce82551dc8d62c2800aad6e8f 146000\npatch-entry = download 0123456789abcdef0123456789abcdef 2798 fedcba9876543210fedcba9876543210\n";
+const PRODUCT_CONFIG_SEED: &str = r#"{"all":{"config":{"data_dir":"Data/","display_locales":["enUS","deDE"],"supported_locales":["enUS","deDE","frFR"],"product":"WoW","enable_block_copy_patch":true,"supports_multibox":true,"supports_offline":false,"shared_container_default_subfolder":"_retail_","launch_arguments":["-launch"],"opaque_product_specific":{"uses_web_credentials":"true","a":"1","b":"2"},"form":{"game_dir":{"dirname":"World of Warcraft"}}}},"enus":{"config":{"install":[{"add_remove_programs_key":{"display_name":"World of Warcraft","uninstall_path":"x","root":"HKEY_LOCAL_MACHINE"}}]}},"platform":{"win":{"config":{"binaries":{"game":{"relative_path":"Wow.exe","launch_arguments":[]}}}}}}"#;
+const MIME_SEED: &str = "MIME-Version: 1.0\r\nContent-Type: multipart/alternative; boundary=\"d39ea8fd-f2a5-4b1c-a2a6-1f5f0d1f8a3e\"\r\n\r\n--d39ea8fd-f2a5-4b1c-a2a6-1f5f0d1f8a3e\r\nContent-Type: text/plain\r\nContent-Disposition: version\r\n\r\nRegion!STRING:0|BuildConfig!HEX:16|BuildId!DEC:4\n## seqn = 2241282\nus|be2bb98dc28aee05bbee519393696cdb|61491\neu|be2bb98dc28aee05bbee519393696cdb|61491\n\r\n--d39ea8fd-f2a5-4b1c-a2a6-1f5f0d1f8a3e\r\nContent-Type: application/octet-stream\r\nContent-Disposition: signature\r\n\r\nAAECAwQFBgcICQ==\r\n--d39ea8fd-f2a5-4b1c-a2a6-1f5f0d1f8a3e--\r\nChecksum: 0000000000000000000000000000000000000000000000000000000000000000\r\n";
+const MIME_SEED_PLAIN: &str = "MIME-Version: 1.0\r\nContent-Type: multipart/mixed; boundary=\"xyz\"\r\n\r\n--xyz\r\nContent-Disposition: cdns\r\n\r\nName!STRING:0|Path!STRING:0|Hosts!STRING:0\nus|tpr/wow|level3.blizzard.com\n\r\n--xyz--\r\n";
+
+fn text_seed(name: &str, s: &str) -> Seed {
+    Seed { name: format!("text/{name}"), bytes: s.as_bytes().to_vec(), real: false }
+}
+fn espec_seeds() -> Vec<Seed> {
+    let mut v: Vec<String> = ["n", "z", "z:9", "z:{9,15}", "z:{6,mpq}", "b:{256K*=z}", "b:{1M*3=z:9,16K=n,*=z}", "e:{0123456789ABCDEF,01020304,z}", "b:{22=n,100=e:{0123456789ABCDEF,01020304,b:{50=z,*=n}},*=z}", "c:{5}", "g:{3}"]
+        .iter()
+        .map(|s| (*s).to_string())
+        .collect();
+    if let Ok(t) = std::fs::read(fixtures_dir().join("espec/wow_classic_era_especs.json"))
+        && let Ok(j) = serde_json::from_slice::<Value>(&t)
+        && let Some(a) = j["especs"].as_array()
+    {
+        for (i, s) in a.iter().enumerate() {
+            if i % 4 == 0
+                && let Some(s) = s.as_str()
+            {
+                v.push(s.to_string());
+            }
+        }
+    }
+    v.into_iter().enumerate().map(|(i, s)| Seed { name: format!("espec/{i}"), bytes: s.into_bytes(), real: i >= 11 }).collect()
+}
+
+/// seeds per format index
+fn all_seeds(tmp: &Path) -> Vec<Vec<Seed>> {
+    let any = |_: &str| true;
+    let mut out: Vec<Vec<Seed>> = Vec::new();
+    let enc_small = build_encoding_file(5);
+    for f in FORMATS {
+        let mut v: Vec<Seed> = Vec::new();
+        match f.name {
+            "blte" | "blte_decompress" => {
+                v.extend(bseed("blte_multi", guarded(|| build_blte_seed(true)).unwrap_or_else(Err)));
+                v.extend(bseed("blte_single", guarded(|| build_blte_seed(false)).unwrap_or_else(Err)));
+                v.extend(fixture_files("tvfs", &|n| n.ends_with(".blte")));
+            }
+            "encoding" => {
+                v.extend(bseed("encoding5", enc_small.clone().and_then(|e| e.build().map_err(es))));
+                v.extend(bseed("encoding40", build_encoding_file(40).and_then(|e| e.build().map_err(es))));
+                v.extend(fixture_files("encoding", &|n| n.ends_with(".bin")));
+            }
+            "encoding_blte" => {
+                v.extend(bseed("encoding5_blte", enc_small.clone().and_then(|e| e.build_blte().map_err(es))));
+            }
+            "archive_index" => {
+                v.extend(bseed("aidx7", build_aidx_seed(7, 4)));
+                v.extend(bseed("aidx300_o5", build_aidx_seed(300, 5)));
+                v.extend(bseed("agroup9", build_aidx_seed(9, 6)));
+                v.extend(fixture_files("archive", &|n| n.ends_with(".index")));
+            }
+            "archive_group" => {
+                v.extend(bseed("agroup9", build_aidx_seed(9, 6)));
+                v.extend(bseed("agroup200", build_aidx_seed(200, 6)));
+            }
+            "root" => {
+                for ver in 1..=4u32 {
+                    v.extend(bseed(&format!("root_v{ver}"), guarded(|| build_root_seed(ver, 6)).unwrap_or_else(Err)));
+                }
+                v.extend(fixture_files("root", &|n| n.ends_with(".root")));
+            }
+            "install" => {
+                v.extend(bseed("install5", guarded(build_install_seed).unwrap_or_else(Err)));
+                v.extend(fixture_files("install", &|n| n.ends_with(".install")));
+            }
+            "download" => {
+                for ver in 1..=3u8 {
+                    v.extend(bseed(&format!("download_v{ver}"), guarded(|| build_download_seed(ver)).unwrap_or_else(Err)));
+                }
+                v.extend(fixture_files("download", &|n| n.ends_with(".download")));
+            }
+            "size" => {
+                for ver in 1..=2u8 {
+                    v.extend(bseed(&format!("size_v{ver}"), guarded(|| build_size_seed(ver)).unwrap_or_else(Err)));
+                }
+            }
+            "tvfs" => {
+                v.extend(bseed("tvfs6", guarded(|| build_tvfs_seed(false)).unwrap_or_else(Err)));
+                v.extend(bseed("tvfs6_est", guarded(|| build_tvfs_seed(true)).unwrap_or_else(Err)));
+                v.extend(fixture_files("tvfs", &|n| n.ends_with(".bin")));
+            }
+            "tvfs_blte" => v.extend(fixture_files("tvfs", &|n| n.ends_with(".blte"))),
+            "patch_archive" => {
+                v.extend(bseed("pa4", guarded(|| build_pa_seed(false)).unwrap_or_else(Err)));
+                v.extend(bseed("pa4_ext", guarded(|| build_pa_seed(true)).unwrap_or_else(Err)));
+                v.extend(fixture_files("patch_archive", &|n| n.ends_with(".bin")));
+            }
+            "patch_index" => {
+                v.extend(bseed("pi4", guarded(build_pi_seed).unwrap_or_else(Err)));
+                v.extend(fixture_files("patch_index", &|n| n.ends_with(".bin")));
+            }
+            "zbsdiff" | "zbsdiff_apply" => {
+                v.extend(bseed("zbs_small", guarded(build_zbs_seed).unwrap_or_else(Err)));
+                v.extend(fixture_files("zbsdiff", &|n| n.ends_with(".zbsdiff")));
+            }
+            "build_config" => v.extend(fixture_files("config", &|n| n.contains("build_config"))),
+            "cdn_config" => v.push(text_seed("cdn_config", CDN_CONFIG_SEED)),
+            "patch_config" => v.push(text_seed("patch_config", PATCH_CONFIG_SEED)),
+            "product_config" => v.push(text_seed("product_config", PRODUCT_CONFIG_SEED)),
+            "keyring_config" => v.extend(fixture_files("config", &|n| n.contains("keyring"))),
+            "bpsv" => {
+                v.push(text_seed("bpsv_versions", BPSV_SEED));
+                v.push(text_seed("build_info", BUILD_INFO_SEED));
+            }
+            "espec" => v.extend(espec_seeds()),
+            "mime" => {
+                v.push(text_seed("mime_v1", MIME_SEED));
+                v.push(text_seed("mime_plain", MIME_SEED_PLAIN));
+                v.push(text_seed("bpsv_versions", BPSV_SEED));
+            }
+            "local_idx" => {
+                v.extend(bseed("idx_updates", guarded(|| build_local_idx_seed(tmp, false)).unwrap_or_else(Err)));
+                v.extend(bseed("idx_flushed", guarded(|| build_local_idx_seed(tmp, true)).unwrap_or_else(Err)));
+            }
+            "update_section" => v.extend(bseed("update30", guarded(build_update_section_seed).unwrap_or_else(Err))),
+            "residency" => v.extend(bseed("residency40", guarded(|| build_residency_seed(tmp)).unwrap_or_else(Err))),
+            "lru" => {
+                v.push(Seed { name: "builder/lru5".into(), bytes: build_lru_seed(5), real: false });
+                v.push(Seed { name: "builder/lru0".into(), bytes: build_lru_seed(0), real: false });
+            }
+            "shmem" => {
+                v.push(Seed { name: "builder/shmem_v5".into(), bytes: build_shmem_seed(true), real: false });
+                v.push(Seed { name: "builder/shmem_v4".into(), bytes: build_shmem_seed(false), real: false });
+            }
+            "build_info" => v.push(text_seed("build_info", BUILD_INFO_SEED)),
+            _ => {}
+        }
+        let _ = any;
+        if v.is_empty() {
+            eprintln!("driver: no seed for format {}", f.name);
+            std::process::exit(4);
+        }
+        out.push(v);
+    }
+    out
+}
+
+//@@LAYOUT@@
+//@@MUTATE@@
+//@@BPROG@@
+//@@PARENT@@
 
 // ------------------------------------------------------------------------------------------------
 // child
